@@ -138,6 +138,10 @@ PolTable ==
     \* storage buffers are raw buffers whose accesses the backend leaves to D3D's own bounds check (reads beyond the
     \* buffer give 0, writes are dropped): the access stays inside the binding, nothing more is promised
     HR |-> [Pol("Restrict", "Restrict") EXCEPT !.storage = "Binding"],
+    \* the same option set seen from a uniform matCx2: its columns are selected by a helper (`__get_col_of_matCx2`,
+    \* `__set_col_..`, `__set_el_..`: a switch over the column) that yields zero / does nothing for a column out of range
+    \* instead of clamping - confined as well, so for uniform buffers either result is admitted (see Alts)
+    HZ |-> [Pol("Restrict", "Restrict") EXCEPT !.storage = "Binding", !.uniform = "RZSW"],
     UU |-> Pol("Unchecked", "Unchecked") ]
 WithNeg(p, neg) == [storage |-> p.storage, uniform |-> p.uniform, workgroup |-> p.workgroup, private |-> p.private,
                     function |-> p.function, value |-> p.value, neg |-> neg]
@@ -204,11 +208,15 @@ OutcomeP(P, input, pol) ==
         negc |-> st.negc ]
 
 \* the second alternative exists only when the run clamped a negative i32 index (WgslSem: MarkNeg)
-Alts(P, input, polname) ==
-  LET p == PolTable[polname]
-      hi == OutcomeP(P, input, WithNeg(p, "hi"))
+AltsOf(P, input, p) ==
+  LET hi == OutcomeP(P, input, WithNeg(p, "hi"))
   IN  IF ~hi.negc THEN <<hi>>
       ELSE LET lo == OutcomeP(P, input, WithNeg(p, "lo")) IN IF lo = hi THEN <<hi>> ELSE <<hi, lo>>
+Alts(P, input, polname) ==
+  LET a == AltsOf(P, input, PolTable[polname])
+  IN  IF polname = "HR" /\ \E g \in 1 .. Len(P.globals) : P.globals[g].space = "uniform"
+      THEN LET z == AltsOf(P, input, PolTable["HZ"]) IN IF z = a THEN a ELSE a \o z
+      ELSE a
 
 (***************************************************************************)
 (* Part 3: trace validation.  cases.ndjson: one record [prog, inputs] per  *)
